@@ -50,8 +50,19 @@ TraceNSz ==
               /\ r[2] = n /\ r[3] = n /\ r[6] = n /\ r[9] = n
               /\ r[4] = sz2 /\ r[5] = sz2 /\ r[7] = sz2 /\ r[10] = sz2
               /\ r[8]
+\* many modes (Fock states beyond one machine word): rows <<monomial, occupied modes of the ket, sign, occupied modes of the image>>,
+\* sign = 0 when the library's actRight returns nothing
+TraceBig ==
+  /\ IsEvent("Big")
+  /\ LET e == Tr[l] IN
+       /\ "ex" \notin DOMAIN e
+       /\ \A i \in 1..Len(e.rows) :
+            LET r == e.rows[i]
+                a == ActMonoSet(r[1], SetOf(r[2])) IN
+              /\ a.sign = r[3]
+              /\ a.sign # 0 => a.occ = SetOf(r[4])
 TraceInit == l = 1
-TraceNext == TraceAlg \/ TraceNSz
+TraceNext == TraceAlg \/ TraceNSz \/ TraceBig
 TraceSpec == TraceInit /\ [][TraceNext]_l
 TraceAccepted ==
   LET d == TLCGet("stats").diameter IN
